@@ -159,14 +159,20 @@ def _window_generator(repo):
         if isinstance(e, ast.Name) and e.id == 'img': return 'WindowAct.whole'
         if isinstance(e, ast.Subscript) and isinstance(e.value, ast.Name) and e.value.id == 'img':
             idx = e.slice
-            if not (isinstance(idx, ast.Tuple) and len(idx.elts) == 2 and all(isinstance(t, ast.Slice) and t.step is None and t.lower is not None and t.upper is not None for t in idx.elts)):
-                raise Refuse('window: returned view is not img[a:b, c:d]: ' + ast.unparse(e))
-            a, b = idx.elts
+            elts = list(idx.elts) if isinstance(idx, ast.Tuple) else []
+            # `img[..., a:b, c:d]` (the slices address the LAST two axes: rows and columns also of a cube) or `img[a:b, c:d]` (the FIRST two axes)
+            from_end = bool(elts) and isinstance(elts[0], ast.Constant) and elts[0].value is Ellipsis
+            if from_end: elts = elts[1:]
+            if not (len(elts) == 2 and all(isinstance(t, ast.Slice) and t.step is None and t.lower is not None and t.upper is not None for t in elts)):
+                raise Refuse('window: returned view is not img[a:b, c:d] or img[..., a:b, c:d]: ' + ast.unparse(e))
+            views.append(from_end)
+            a, b = elts
             return f'WindowAct.view {ix(a.lower)} {ix(a.upper)} {ix(b.lower)} {ix(b.upper)}'
         if isinstance(e, ast.Call) and ast.unparse(e.func) in ('lentil.pad', 'pad') and not e.keywords and len(e.args) == 2 \
                 and ast.unparse(e.args[0]) == 'img' and ast.unparse(e.args[1]) == 'shape':
             return 'WindowAct.pad sh.1 sh.2'
         raise Refuse('window: return value ' + ast.unparse(e))
+    views = []
     def block(stmts, ind):
         if not stmts: return 'WindowAct.fallthrough'
         st, rest = stmts[0], stmts[1:]
@@ -179,14 +185,19 @@ def _window_generator(repo):
             t = block(st.body + rest, ind + 2); f = block((st.orelse or []) + rest, ind + 2)
             return f'if {cond(st.test)} then\n{pad}  {t}\n{pad}else\n{pad}  {f}'
         raise Refuse('window: statement ' + ast.unparse(st)[:80])
-    lean = ('/-- what `util.window` does with its input: return it unchanged, return the view `img[r0:r1, c0:c1]`, hand it to `lentil.pad`\n'
+    tree = block(body[1:], 2)
+    if not views or len(set(views)) != 1: raise Refuse('window: no returned view, or views that address different axes')
+    lean = ('/-- `util.window`: the returned view is `img[..., r0:r1, c0:c1]` (`true`: the slices address the LAST two axes — rows and columns, also of a\n'
+            'cube `(depth, rows, cols)`) or `img[r0:r1, c0:c1]` (`false`: the FIRST two axes — depth and rows of a cube) -/\n'
+            f"def windowSliceAxesFromEnd : Bool := {'true' if views[0] else 'false'}\n\n"
+            '/-- what `util.window` does with its input: return it unchanged, return the view `img[r0:r1, c0:c1]`, hand it to `lentil.pad`\n'
             'with a target shape, fail an `assert`, or fall off the end (returns `None`) -/\n'
             'inductive WindowAct where\n  | whole | view (r0 r1 c0 c1 : Int) | pad (s0 s1 : Int) | refuse | fallthrough\n  deriving DecidableEq, Repr\n\n'
             '/-- `util.window(img, shape, slice)`: decision tree translated from the source. `size` = `img.size`, `shNone`/`slNone` = the argument\n'
             'is `None`, `sh`/`sl` = its entries otherwise -/\n'
             'def windowAct (size : Int) (shNone slNone : Bool) (sh : Int × Int) (sl : Int × Int × Int × Int) : WindowAct :=\n  '
-            + block(body[1:], 2) + '\n')
-    return lean, ['window: decision tree, asserts, view bounds and the pad call translated; `img = np.asarray(img)` and the signature checked structurally']
+            + tree + '\n')
+    return lean, ['window: decision tree, asserts, view bounds, the axes the view addresses (leading Ellipsis) and the pad call translated; `img = np.asarray(img)` and the signature checked structurally']
 
 
 # ---------------------------------------------------------------------------------------------- util.centroid
